@@ -186,7 +186,30 @@ def has_nan(d):
 OPS = ['pickle0', 'pickle1', 'pickle2', 'pickle3', 'pickle4', 'pickle5', 'copy', 'deepcopy', 'container']
 
 
+class _default_int_str_limit(object):
+    """Run the pickling under CPython's DEFAULT int<->str digit limit (4300), as a user process would: the harness lifts
+    that limit in its workers for its own bookkeeping, which would hide a pickling scheme that writes huge mantissas
+    as decimal text (text protocols 0/1 then raise ValueError for mantissas above ~14 300 bits)."""
+
+    def __enter__(self):
+        import sys
+        self.old = sys.get_int_max_str_digits() if hasattr(sys, 'get_int_max_str_digits') else None
+        if self.old is not None:
+            sys.set_int_max_str_digits(4300)
+
+    def __exit__(self, *a):
+        import sys
+        if self.old is not None:
+            sys.set_int_max_str_digits(self.old)
+        return False
+
+
 def apply(op, x):
+    with _default_int_str_limit():
+        return _apply(op, x)
+
+
+def _apply(op, x):
     if op.startswith('pickle'):
         proto = int(op[6:])
         return pickle.loads(pickle.dumps(x, proto))
